@@ -509,6 +509,8 @@ func c14MakeItem(room *c14Room, src int, f *c14Fault) c14Item {
 	if it.Class != c14ClassUnparsed {
 		it.ID = raEventID(room.Version, it.Tree)
 		it.SigOK = c14SigOK(room.Version, it.Tree)
+	} else if it.Tree.K == 'o' {
+		it.ID = raEventID(room.Version, it.Tree) // well-formed JSON that is not an event (size limits): named in messages
 	}
 	return it
 }
